@@ -29,7 +29,8 @@
 /* ---- ghost lock state (havocked by xv_lk_ghost_havoc() at the start of every harness) */
 /* (ghost variables of one group live in one struct: one assigns target and one addressed object per group instead of
  * one per variable -- the cost of DFCC's frame checks grows with both; the names below are macros onto the fields) */
-struct { _Bool held; long acq, rel, init; } xv_LK;
+struct { _Bool held; long acq, rel, init; pthread_mutex_t *first; } xv_LK;
+#define xv_lk_first xv_LK.first   /* (unit xcm_tp.c only) the mutex acquired first: see xv_lk_the_mutex there */
 #define xv_lk_held xv_LK.held     /* this thread holds THE lock of the unit                        */
 #define xv_lk_acq xv_LK.acq       /* number of acquisitions / releases made by this thread         */
 #define xv_lk_rel xv_LK.rel
@@ -47,6 +48,9 @@ static void xv_lk_others_run_release(void);/* mutable shared fields := arbitrary
 /* TRUSTED(pthread) */
 int pthread_mutex_lock(pthread_mutex_t *m)
 {
+#ifdef XV_LOCKS_TP
+    if (xv_lk_first == NULL) xv_lk_first = m;
+#endif
     __CPROVER_assert(m == xv_lk_the_mutex(), "lock model: the mutex locked is the one that protects the state of this unit");
     __CPROVER_assert(!xv_lk_held, "PO[C15] lock.acquire_while_not_held (no double lock / self-deadlock)");
     xv_lk_check_untouched();
@@ -93,8 +97,12 @@ static inline void xv_lk_ghost_havoc(void)
     xv_lk_held = nondet_bool(); xv_lk_acq = nondet_long(); xv_lk_rel = nondet_long(); xv_lk_init = nondet_long();
     xv_id_shadow = nondet_long(); xv_id_seen = nondet_long(); xv_id_pub = nondet_long();
     next_id = nondet_long();
+    xv_lk_first = NULL;
 }
-static pthread_mutex_t *xv_lk_the_mutex(void) { return &next_id_lock; }
+/* the mutex is not named here (a change that removes or renames it must fail an obligation, not the build): it is whichever mutex the code
+ * under proof acquires first; release must name the same one, and the postcondition of get_next_sock_id demands exactly one acquire/release pair */
+static pthread_mutex_t *xv_lk_the_mutex(void) { return xv_lk_first; }
+#define XV_LK_UNNAMED_MUTEX 1
 static void xv_lk_check_untouched(void)
 {
     __CPROVER_assert(next_id == xv_id_shadow, "PO[C15] next_id.not_written_before_acquire (outside the critical section)");
